@@ -21,3 +21,15 @@ package respondent
 //@
 //@ func (*context).close
 //@   holds c.s.Mutex
+//@ func (*pipe).receiver
+//@   ghost body0 = result.Body at call:RecvMsg#1
+//@   ghost hdr0 = result.Header at call:RecvMsg#1
+//@   loop 2 invariant hops >= 0
+//@   loop 2 invariant m.Body == body0[4*hops:]
+//@   loop 2 invariant same_elems(body0)
+//@   loop 2 invariant 4*hops <= len(body0)
+//@   loop 2 invariant arrof(m.Header) != arrof(body0)
+//@   loop 2 invariant forall(j, 0, hops, body0[4*j] < 128)
+//@   at select#1 assert selidx == 1 ==> hops >= 1 && hops <= at("loop3:entry", s.ttl) && 4*hops <= len(body0) && body0[4*(hops-1)] >= 128 && forall(j, 0, hops-1, body0[4*j] < 128)
+//@   at call:Free#1 assert forall(j, 0, hops, body0[4*j] < 128) && hops >= s.ttl
+//@   at call:Free#2 assert forall(j, 0, hops-1, body0[4*j] < 128) && len(body0) < 4*hops
